@@ -41,4 +41,11 @@ theorem c13_gen_id_Equal_eq (H : HashFns) (a b : Bytes) :
     Gen.C13.RoundID_Equal H a b = idEqual a b ∧ Gen.C13.ProtocolID_Equal H a b = idEqual a b ∧
     Gen.C13.ServiceID_Equal H a b = idEqual a b ∧ Gen.C13.ServiceID_IsNil H a = idIsNil a :=
   ⟨rfl, rfl, rfl, rfl, rfl, rfl, rfl, rfl⟩
+/-- **the `IsNil` methods of the six other identifier types as translated are the model's `idIsNil`**: each compares its
+receiver with the nil UUID through the type's own `Equal` -/
+theorem c13_gen_id_IsNil_eq (H : HashFns) (a : Bytes) :
+    Gen.C13.TreeID_IsNil H a = idIsNil a ∧ Gen.C13.RosterID_IsNil H a = idIsNil a ∧
+    Gen.C13.TreeNodeID_IsNil H a = idIsNil a ∧ Gen.C13.TokenID_IsNil H a = idIsNil a ∧
+    Gen.C13.RoundID_IsNil H a = idIsNil a ∧ Gen.C13.ProtocolID_IsNil H a = idIsNil a :=
+  ⟨rfl, rfl, rfl, rfl, rfl, rfl⟩
 end C13
